@@ -128,6 +128,7 @@ def talker_main_jobs(model, tier, config='le'):
            '    seq_num = nondet_u8(); udp_seq_num = nondet_u32(); vp_reads = nondet_uint(); vp_env_failed = 0;\n'
            '    vp_i = nondet_size(); vp_j = nondet_size(); vp_extra = 0; vp_wx = 0;\n'
            '    __CPROVER_assume(use_udp <= 1 && use_tscf <= 1 && (unsigned)can_variant <= 1u);\n'
+           '#ifdef VP_FB_MSGS      /* bounded FALLBACK build only */\n    __CPROVER_assume(num_acf_msgs <= VP_FB_MSGS);\n#endif\n'
            '    char *argv[1] = { 0 };\n    vp_talker_main(1, argv);\n    VP_CANARY();\n}\n')
     own = {'post': ['C19'], 'safety': ['C19'], 'assigns': ['C19'], 'loop': ['C19'], 'assert': ['C19']}
     repl = [x for v in need.values() for x in v] + ['prepare_acf_packet/vp_use_prepare_acf_packet', 'read', 'sendto']
@@ -136,7 +137,17 @@ def talker_main_jobs(model, tier, config='le'):
         for tscf in (0, 1):
             # one obligation per transport x control format (constants: symbolic execution prunes the other branches);
             # classic / FD stays symbolic
-            jobs.append(Job('examples/acf-can-talker/main-sending-loop/%s-%s' % ('udp' if udp else 'raw', 'tscf' if tscf else 'ntscf'), src, LIBSRC,
+            nm = 'examples/acf-can-talker/main-sending-loop/%s-%s' % ('udp' if udp else 'raw', 'tscf' if tscf else 'ntscf')
+            # fallback when the two loop contracts cannot be attached (loop moved into a helper, locals renamed): at most 2 messages
+            # per packet, main's sending loop unwound once, other loops 3 times, WITHOUT unwinding assertions (the sending loop never terminates;
+            # paths that spin longer on failed reads are cut) - checks memory safety and the sendto() preconditions only
+            fb = Job(nm + '~bounded-fallback', src, LIBSRC, enforce='vp_talker_main', replace=repl,
+                     owners=dict(own, unwind=['C19']), clause_map=_tags(src), function='acf-can-talker.c:main(sending loop)', kind='example-fallback',
+                     config=config, includes=inc, timeout=1800, obj_bits=10, assumptions=TALKER_ASSUME,
+                     extra_cc=['-DVP_CFG_UDP=%d' % udp, '-DVP_CFG_TSCF=%d' % tscf, '-DVP_FB_MSGS=2'], unwind={'*repo*': 3, 'vp_talker_main': 1}, no_unwinding_assertions=True,
+                     bounded='BOUNDED FALLBACK (loop contracts not attachable): at most 2 ACF messages per packet, the sending loop of main unwound once, every other loop 3 times, without unwinding '
+                             'assertions (first packet from the initial state); the frames-delivered == messages-built invariant is not checked')
+            jobs.append(Job(nm, src, LIBSRC, fallback=fb,
                             enforce='vp_talker_main', replace=repl,
                             loop_contracts={'vp_talker_main': [{'template': OUTER, 'symbols': OUTER_SYMS, 'all_locals': True, 'loop_rank': 0},
                                                                {'template': INNER, 'symbols': INNER_SYMS, 'loop_rank': 1}]},
